@@ -6,6 +6,15 @@ ALL = ["C%02d" % i for i in range(1, 21)]
 
 # id -> (category, technique, level text, level note, design ref, engine)
 CHECKS = {
+ "C03": ("model_checking", "exhaustive configuration lattice on the real solve_ivp with an interval/status trace monitor",
+         "The full product method x direction x x0 x span (1e-12..1e9, inf) x first_step x max_step x t_eval x dense x events x problem is run on the real code; a monitor checks ordering, range of every interface call, status <=> coverage and shapes on every execution. Right level: the landing logic fails only on numeric coincidences (first_step >= span, max_step dividing the span, sub-1e-12 spans) which the lattice places by construction.",
+         "trusts the instrumented IVP to see every ode/events/jac call; 'to rounding' = 8 ulp (1+n/64); validity predicate of DESIGN §2.4", "DESIGN.md §3 C03", "E1"),
+ "C16": ("model_checking", "exhaustive enumeration of all small-alphabet matrices (real and complex, n<=3) plus enumerated structured families to 12x12, residuals in double-double",
+         "Every matrix over the alphabet is factorised and solved on the real lu_decomp/lin_solve(_complex); exact integer determinants decide singular vs nonsingular; residual bound, multiplier bound, error kinds and immutability of the factors are checked on every case.",
+         "backward-stability constant c = 8*rho (growth factor read off the factors, asserted <= 2^(n-1)); complex multipliers bounded by sqrt(2) because the port pivots on |re|+|im|", "DESIGN.md §3 C16", "E1"),
+ "C18": ("model_checking", "exhaustive configuration lattice with a counting environment (instrumented IVP and SolOut)",
+         "nfev/njev/naccpt/nstep of every run of the lattice (six methods, stiff and non-stiff problems, tolerances, both directions, user/finite-difference Jacobian, solve_ivp and low-level builders, early/late interrupts, ModifiedSolution, terminal events) are compared with the calls actually observed at the interface.",
+         "the instrumented IVP tags RHS calls made inside the default finite-difference jac; expected naccpt under a terminal event is derived from the plain run's step grid (C12)", "DESIGN.md §3 C18", "E1"),
  "C17": ("model_checking", "explicit-state search (stateright BFS+DFS) of the real Matrix against a dense reference model",
          "All reachable (matrix, reference) states from every public constructor under writes, scalar ops and binary ops up to the stated depth for sizes 1..8 are visited; every transition compares all entries with a dense reference. Right level: storage/band index arithmetic fails only for particular (ml,mu,size,operand) combinations, which the search enumerates completely.",
          "trusts stateright's visited-set search (cross-checked by running BFS and DFS and comparing unique-state counts) and the dense reference model in harness/src/c17.rs", "DESIGN.md §3 C17", "E3"),
